@@ -22,7 +22,7 @@ import xrl as _xrl
 VERIF = _build.VERIF
 STUB = os.path.join(VERIF, "fixtures", "java", "org", "apache", "commons", "math3", "complex", "Complex.java")
 DRV = os.path.join(VERIF, "harness", "java", "XrlDrv.java")
-JVM_FLAGS = ["-Xss16m", "-Xmx1g", "-XX:+UseSerialGC", "-XX:TieredStopAtLevel=4", "-XX:-StackTraceInThrowable", "-Djava.awt.headless=true"]
+JVM_FLAGS = ["-XX:-UsePerfData", "-Xlog:disable", "-Xlog:all=warning:stderr", "-Xss16m", "-Xmx1g", "-XX:+UseSerialGC", "-XX:TieredStopAtLevel=4", "-XX:-StackTraceInThrowable", "-Djava.awt.headless=true"]
 
 
 def _java_sources():
@@ -104,6 +104,15 @@ class JXrl(_xrl.Xrl):
         if self.drivers[k] is None or self.drivers[k].p.poll() is not None:
             self.drivers[k] = JDriver(self.cmd, self.errlog)
         return self.drivers[k]
+
+    def _run(self, opcode, name, sig, args, mode, **kw):
+        # a JVM that broke the wire protocol (the JVM itself can write to fd 1) is killed by Driver.request; calls are stateless, so run the batch again once
+        try:
+            return _xrl.Xrl._run(self, opcode, name, sig, args, mode, **kw)
+        except _xrl.DriverDied as ex:
+            self.restarts = getattr(self, "restarts", 0) + 1
+            sys.stderr.write("[jxrl] %s: batch re-run on fresh JVMs\n" % ex)
+            return _xrl.Xrl._run(self, opcode, name, sig, args, mode, **kw)
 
     def warm(self, k=None):
         """start k JVMs now (they initialise in parallel while the C side is working)"""
